@@ -38,19 +38,17 @@ class NLRI(object):
             ip_hex = ip_hex[0:3]
         elif 8 < masklen <= 16:
             ip_hex = ip_hex[0:2]
-        elif masklen <= 8:
+        elif 0 < masklen <= 8:
             ip_hex = ip_hex[0:1]
+        elif masklen == 0:
+            ip_hex = b''
         return ip_hex
 
     @staticmethod
     def construct_prefix_v6(prefix):
         mask = int(prefix.split('/')[1])
-        prefix_hex = binascii.unhexlify(hex(netaddr.IPNetwork(prefix).ip)[2:])
-        offset = mask // 8
-        offset_re = mask % 8
-        if offset == 0:
-            return prefix_hex[0: 1]
-        return prefix_hex[0: offset + offset_re]
+        # a prefix occupies ceil(mask / 8) octets
+        return netaddr.IPNetwork(prefix).ip.packed[0: (mask + 7) // 8]
 
     @classmethod
     def parse_mpls_label_stack(cls, data):
